@@ -52,6 +52,8 @@ class FD:
 
 
 def _kind(fd_node) -> str:
+    if len(fd_node.decorator_list) > 1:
+        return 'other'          # stacked decorators (`@staticmethod` over `@lru_cache`): never folded
     for d in fd_node.decorator_list:
         if isinstance(d, ast.Name) and d.id in ('staticmethod',):
             return 'static'
@@ -70,7 +72,9 @@ def collect(trees: Dict[str, ast.Module]) -> Tuple[Dict[str, FD], Dict[str, Dict
     for modname, tree in trees.items():
         for st in tree.body:
             if isinstance(st, ast.FunctionDef):
-                funcs[f"{modname}.{st.name}"] = FD(f"{modname}.{st.name}", st, modname, None, 'function')
+                # a decorated module-level function (`@lru_cache`, `@contextmanager` ..) is not its body: never folded
+                funcs[f"{modname}.{st.name}"] = FD(f"{modname}.{st.name}", st, modname, None,
+                                                   'function' if not st.decorator_list else 'other')
             elif isinstance(st, ast.ClassDef):
                 bases[st.name] = [b.id if isinstance(b, ast.Name) else getattr(b, 'attr', '') for b in st.bases]
                 for m in st.body:
